@@ -25,6 +25,8 @@ EQ_COMPARABLE = ("boolean", "number", "string", "date", "time", "dt", "dtd", "ym
 # (label, kind, binding)
 ALPHABET = [
     ("null", "null", None),
+    # nulls that carry a trace message: the value of a sub-expression that could not be evaluated (bound as such, or computed in place)
+    ("null(traced)", "null", {"N": "could not be evaluated"}), ("1 > null (computed)", "null", {"feel": "1 > null"}),
     ("true", "boolean", True), ("false", "boolean", False),
     ("-1", "number", {"n": "-1"}), ("0", "number", {"n": "0"}), ("0.0", "number", {"n": "0.0"}), ("1", "number", {"n": "1"}),
     ("1.0", "number", {"n": "1.0"}), ("1.00", "number", {"n": "1.00"}), ("2", "number", {"n": "2"}), ("1E+30", "number", {"n": "1E+30"}),
